@@ -429,7 +429,9 @@ def eval_flip(case, acc=None):
     enums = synth.build_enums(c['world'])
     inp = synth._make_input(dict(spec), enums)
     inp.__form_init__(type('F', (), {'name': lambda self: q.split('.')[0]})())
-    eff = new_text.strip()
+    # the text the input receives is what configparser reads for that key (continuation lines lose their indentation)
+    sec_, key_ = q.rsplit('.', 1)
+    eff = (run.config_items or {}).get((sec_, key_), new_text.strip())
     try:
         v = bool(inp.valid(eff))
     except Exception:
